@@ -1714,4 +1714,76 @@ theorem ops_refine_lemma {cmp : E → E → Int} (hc : Lawful cmp)
     obtain ⟨r2, e2, h2⟩ := ih r1 _ h1
     exact ⟨r2, by simp [runOps, e1, e2], h2⟩
 
+/-- more fuel never changes an answer of `union` that was already produced -/
+theorem union_mono (cmp : E → E → Int) :
+    ∀ (fuel : Nat) (a b : STree E) (r : Option (STree E)),
+      union cmp fuel a b = some r → union cmp (fuel + 1) a b = some r := by
+  intro fuel
+  induction fuel with
+  | zero => intro a b r h; simp [union] at h
+  | succ n ih =>
+    intro a b r h
+    cases a with
+    | empty => simpa [union] using h
+    | leaf v => cases b <;> simpa [union] using h
+    | node h1 v1 l1 r1 =>
+      cases b with
+      | empty => simpa [union] using h
+      | leaf v => simpa [union] using h
+      | node h2 v2 l2 r2 =>
+        rw [union] at h ⊢
+        by_cases c : h1 ≥ h2
+        · simp only [c, if_true] at h ⊢
+          by_cases c2 : h2 = 1
+          · simpa [c2] using h
+          · simp only [c2, if_false] at h ⊢
+            cases hs : split cmp (STree.node h2 v2 l2 r2) v1 with
+            | none => simpa [hs] using h
+            | some tr =>
+              obtain ⟨x, d, y⟩ := tr
+              simp only [hs] at h ⊢
+              cases h1' : union cmp n l1 x with
+              | none => simp [h1'] at h
+              | some o1 =>
+                rw [ih _ _ _ h1']
+                simp only [h1'] at h
+                cases o1 with
+                | none => simpa using h
+                | some t1 =>
+                  simp only at h ⊢
+                  cases h2' : union cmp n r1 y with
+                  | none => simp [h2'] at h
+                  | some o2 =>
+                    rw [ih _ _ _ h2']
+                    simpa [h2'] using h
+        · simp only [c, if_false] at h ⊢
+          by_cases c2 : h1 = 1
+          · simpa [c2] using h
+          · simp only [c2, if_false] at h ⊢
+            cases hs : split cmp (STree.node h1 v1 l1 r1) v2 with
+            | none => simpa [hs] using h
+            | some tr =>
+              obtain ⟨x, d, y⟩ := tr
+              simp only [hs] at h ⊢
+              cases h1' : union cmp n x l2 with
+              | none => simp [h1'] at h
+              | some o1 =>
+                rw [ih _ _ _ h1']
+                simp only [h1'] at h
+                cases o1 with
+                | none => simpa using h
+                | some t1 =>
+                  simp only at h ⊢
+                  cases h2' : union cmp n y r2 with
+                  | none => simp [h2'] at h
+                  | some o2 =>
+                    rw [ih _ _ _ h2']
+                    simpa [h2'] using h
+
+theorem union_mono_le (cmp : E → E → Int) (fuel fuel' : Nat) (hle : fuel ≤ fuel') (a b : STree E)
+    (r : Option (STree E)) (h : union cmp fuel a b = some r) : union cmp fuel' a b = some r := by
+  induction hle with
+  | refl => exact h
+  | step _ ih => exact union_mono cmp _ a b r ih
+
 end SamVerif.StdSet
